@@ -148,15 +148,16 @@ Section TwoLayerListing.
   Proof.
     intros Hpc Hp Hwo Hserved Hwdir.
     unfold ovl_read_dir. unfold bind_res at 1. rewrite run_bind, (read_path_rule hs lg ft s0 s1 p Hp).
-    rewrite bool_decide_eq_false_2 by (rewrite Hwo; intros [? ?]; discriminate).
     (* the serving layer and its metadata *)
     assert (Hmeta : exists lp, (if bool_decide (is_Some (s0 !! p)) then Ok (v0, p)
+                                else if bool_decide (is_Some (s0 !! whiteout_path top p)) then fail ENotFound
                                 else if bool_decide (is_Some (s1 !! p)) then Ok (v1, p) else fail ENotFound) = Ok lp /\
                     exists md, run bhandler (vp_metadata (fst lp) (snd lp)) (S2 s0 s1) = (S2 s0 s1, Ok md) /\ m_type md = Dir).
     { destruct Hserved as [(f & Hf & Ht)|[Hn (f & Hf & Ht)]].
       - rewrite bool_decide_eq_true_2 by eauto. eexists. split; [reflexivity|]. cbn [fst snd].
         rewrite md0, Hf. eexists. split; [reflexivity|exact Ht].
       - rewrite bool_decide_eq_false_2 by (rewrite Hn; intros [? ?]; discriminate).
+        rewrite bool_decide_eq_false_2 by (rewrite Hwo; intros [? ?]; discriminate).
         rewrite bool_decide_eq_true_2 by eauto. eexists. split; [reflexivity|]. cbn [fst snd].
         rewrite md1, Hf. eexists. split; [reflexivity|exact Ht]. }
     destruct Hmeta as (lp & -> & md & Hmd & Hty).
@@ -190,20 +191,21 @@ Section TwoLayerListing.
   Theorem metadata_rule (s0 s1 : mstate) (p : path) : p <> [] ->
     run bhandler (ovl_metadata top lower p) (S2 s0 s1) =
     (S2 s0 s1,
-     if bool_decide (is_Some (s0 !! whiteout_path top p)) then fail ENotFound
-     else match s0 !! p with
-          | Some f => Ok (mem_meta f)
-          | None => match s1 !! p with
-                    | Some f => Ok (mem_meta f)
-                    | None => fail ENotFound
-                    end
-          end).
+     match s0 !! p with
+     | Some f => Ok (mem_meta f)
+     | None =>
+         if bool_decide (is_Some (s0 !! whiteout_path top p)) then fail ENotFound
+         else match s1 !! p with
+              | Some f => Ok (mem_meta f)
+              | None => fail ENotFound
+              end
+     end).
   Proof.
     intros Hp. unfold ovl_metadata, bind_res. rewrite run_bind, (read_path_rule hs lg ft s0 s1 p Hp).
-    case_bool_decide; [reflexivity|].
     destruct (s0 !! p) as [f|] eqn:E0.
     - rewrite bool_decide_eq_true_2 by eauto. cbn [fst snd]. rewrite md0, E0. reflexivity.
     - rewrite bool_decide_eq_false_2 by (intros [? ?]; discriminate).
+      case_bool_decide; [reflexivity|].
       destruct (s1 !! p) as [f|] eqn:E1.
       + rewrite bool_decide_eq_true_2 by eauto. cbn [fst snd]. rewrite md1, E1. reflexivity.
       + rewrite bool_decide_eq_false_2 by (intros [? ?]; discriminate). reflexivity.
@@ -212,13 +214,12 @@ Section TwoLayerListing.
   (** open_file: the reader holds the bytes of the serving layer's file; a file that exists only in
       the lower layer is read from there (and - finding D20 - gets its access time stamped) *)
   Theorem open_file_upper (s0 s1 : mstate) (p : path) f : p <> [] ->
-    s0 !! whiteout_path top p = None -> s0 !! p = Some f -> f_type f = File ->
+    s0 !! p = Some f -> f_type f = File ->
     run bhandler (ovl_impl top lower (COpenFile p)) (S2 s0 s1) =
     (mstore2 (<[p := mkMemFile File (f_content f) (f_created f) (f_modified f) (Some TAuto)]> s0) s1
              (hs ++ [HMemReader (f_content f) 0]) lg ft, Ok (length hs)).
   Proof.
-    intros Hp Hwo Hf Ht. cbn [ovl_impl]. unfold bind_res. rewrite run_bind, (read_path_rule hs lg ft s0 s1 p Hp).
-    rewrite bool_decide_eq_false_2 by (rewrite Hwo; intros [? ?]; discriminate).
+    intros Hp Hf Ht. cbn [ovl_impl]. unfold bind_res. rewrite run_bind, (read_path_rule hs lg ft s0 s1 p Hp).
     rewrite bool_decide_eq_true_2 by eauto. cbn [fst snd].
     cbn. unfold mem_fs_call. rewrite ms_open_file. cbn [msec_sem]. rewrite Hf, Ht. reflexivity.
   Qed.
@@ -230,8 +231,8 @@ Section TwoLayerListing.
              (hs ++ [HMemReader (f_content f) 0]) lg ft, Ok (length hs)).
   Proof.
     intros Hp Hwo Hn Hf Ht. cbn [ovl_impl]. unfold bind_res. rewrite run_bind, (read_path_rule hs lg ft s0 s1 p Hp).
-    rewrite bool_decide_eq_false_2 by (rewrite Hwo; intros [? ?]; discriminate).
     rewrite bool_decide_eq_false_2 by (rewrite Hn; intros [? ?]; discriminate).
+    rewrite bool_decide_eq_false_2 by (rewrite Hwo; intros [? ?]; discriminate).
     rewrite bool_decide_eq_true_2 by eauto. cbn [fst snd].
     cbn. unfold mem_fs_call. rewrite ms_open_file. cbn [msec_sem]. rewrite Hf, Ht. reflexivity.
   Qed.
